@@ -82,7 +82,7 @@ Qed.
 
 Lemma py_int_err s e : py_int s = Err e -> e = ValueError.
 Proof.
-  unfold py_int. destruct (py_strip s) as [|c r].
+  unfold py_int. destruct (strip int_ws s) as [|c r].
   - intro H. inversion H. reflexivity.
   - destruct (c =? DASH); [apply (py_int_body_err (fun n => (- Z.of_N n)%Z))|].
     destruct (c =? 43); [apply (py_int_body_err (fun n => Z.of_N n))|apply (py_int_body_err (fun n => Z.of_N n) (c :: r))].
